@@ -346,6 +346,54 @@ def check_metadata_entries_apart(chk, fails, dis, stats):
             stats["distinct_nontrivial"] += 1
 
 
+def check_string_literals(chk, fails, dis, stats):
+    """a string literal denotes the text between its quotes, verbatim (escaped quotes and backslashes included): written
+    as a literal or handed in as a string variable, the same text reaches the metadata"""
+    import gen_exec
+    import parse_model
+    rng = random.Random("C13str-%d" % chk.seed)
+    pieces = ['\\"', "\\", "a", " ", "é", "%", "<", "'", "日", "}", "$x", "@y", "//", "/*"]
+    bodies = list(gen_exec.RAW_BODIES) + VALUES["string"][:2] + ["é", "&<>", "日本語", "  ", "// not a comment", "/* nor this */"]
+    for _ in range(chk.size(200, 3000)):
+        bodies.append("".join(rng.choice(pieces) for _ in range(rng.randrange(1, 7))))
+    bodies = list(dict.fromkeys(bodies))
+    cases = []
+    for b in bodies:
+        cases.append({"id": len(cases), "op": "exec", "script": 'set_tx_meta("k", "%s")\nset_account_meta(@acc, "k", "%s")\n' % (b, b),
+                      "vars": {}, "balances": {}, "meta": {}, "store": "exact", "failAt": -1, "_body": b})
+        cases.append({"id": len(cases), "op": "exec", "script": 'vars { string $s }\nset_tx_meta("k", $s)\nset_account_meta(@acc, "k", $s)\n',
+                      "vars": {"s": b}, "balances": {}, "meta": {}, "store": "exact", "failAt": -1, "_body": b})
+    gos = runner.run_go([{k: v for k, v in c.items() if k != "_body"} for c in cases])
+    mods = P.run_model(cases, gos)
+    pdis, pstats = parse_model.compare([c["script"] for c in cases], gos)
+    stats["model_comparisons"] += pstats["parser_model_comparisons"]
+    dis += [(c, go, m, why) for c, go, m, why in pdis]
+    stats["evaluations"] += len(cases)
+    stats["string_literal_bodies"] = len(bodies)
+    for c, o, m in zip(cases, gos, mods):
+        go = o.get("go")
+        if go is None:
+            if o.get("parseErrors"):
+                fails.append((c, o, None, ["a string literal with the body %r is not accepted: %s" % (c["_body"], o["parseErrors"][:1])]))
+            continue
+        if o.get("parseErrors"):
+            fails.append((c, go, None, ["a string literal with the body %r is not accepted: %s" % (c["_body"], o["parseErrors"][:1])]))
+            continue
+        if go["outcome"] != "ok":
+            fails.append((c, go, m, ["writing the string %r to the metadata fails: %s %s" % (c["_body"], go.get("errKind"), go.get("panic"))]))
+            continue
+        got = (go["txMeta"]["k"], go["accMeta"]["acc"]["k"])
+        if got != (["string", c["_body"]], c["_body"]):
+            fails.append((c, go, m, ["the string %r reaches the metadata as %r" % (c["_body"], got)]))
+        else:
+            stats["distinct_nontrivial"] += 1
+        if m is not None:
+            stats["model_comparisons"] += 1
+            d = runner.diff_exec(go, m, ["txMeta", "accMeta"])
+            if d:
+                dis.append((c, go, m, d))
+
+
 def run(chk):
     broken = chk.obligations(REGISTRY["C13"])
     runner.build_harness()
@@ -355,6 +403,7 @@ def run(chk):
     check_roundtrip(chk, fails, dis, stats)
     check_observed_around_arithmetic(chk, fails, dis, stats)
     check_metadata_entries_apart(chk, fails, dis, stats)
+    check_string_literals(chk, fails, dis, stats)
     for c, go, m, why in fails[:10]:
         chk.violation("oracle", case=c, go=go, model=m, oracle=why)
     if not fails:
